@@ -77,7 +77,7 @@ def programs(tier, b, seed):
                     st = f2(rx)
                     st["tag"] = "main"
                     B.add(st)
-                    progs.append(B.build())
+                    progs.append(dict(B.build(), fresh=True))      # an interpreter of its own: about state surviving between calls
     rg = gen.RandGen(seed * 7919 + b, b)
     n = 400 if tier == "quick" else 6000
     for i in range(n):
